@@ -10,14 +10,22 @@ from . import tier as T
 NOTG = {"lo": -2, "hi": -2, "tiers": []}
 
 
-def mk_tg(tg, emb, pool):
+def mk_tg(tg, emb, pool, primed=False):
+    """primed: the same textgrid reached through a short history - tiers built through mk_tier_primed, one extra tier added in
+    front, every read-only view read once, the extra tier removed again"""
     textgrid = T.praatio()[0]
     lo = None if tg["lo"] == -1 else emb.g(tg["lo"])
     hi = None if tg["hi"] == -1 else emb.g(tg["hi"])
     obj = textgrid.Textgrid(lo, hi)
     for t in tg["tiers"]:
         # populate the ordered map directly through the public constructor path: append, no reporting
-        obj.addTier(T.mk_tier(t, emb, pool), reportingMode="silence")
+        obj.addTier((T.mk_tier_primed if primed else T.mk_tier)(t, emb, pool), reportingMode="silence")
+    if primed and tg["tiers"]:
+        t0 = tg["tiers"][0]
+        with contextlib.redirect_stdout(io.StringIO()):
+            obj.addTier(T.mk_tier(dict(t0, name="zz-extra", ents=[]), emb, pool), tierIndex=0, reportingMode="silence")
+            _ = obj.tierNames, obj.tiers, obj.validate("silence"), obj == obj, obj.getTier("zz-extra")
+            obj.removeTier("zz-extra")
     # the abstract state fixes the span (addTier may only have widened it to the same hull)
     obj.minTimestamp, obj.maxTimestamp = lo, hi
     return obj
@@ -58,7 +66,7 @@ def run_vector(vec, emb, pool, eid, recv=None):
     pj = T.Proj(emb, pool)
     g = emb.g
     if recv is None:
-        recv = mk_tg(vec["pre"], emb, pool)
+        recv = mk_tg(vec["pre"], emb, pool, primed=(eid % 4 == 1))
     argt = T.mk_tier(vec["argt"], emb, pool) if vec["argt"]["kind"] != "none" else None
     argtg = mk_tg(vec["argtg"], emb, pool) if vec["argtg"]["lo"] != -2 else None
     pre = proj_tg(pj, recv)
